@@ -36,7 +36,7 @@ CONSTANTS
     Names,       \* sequence of file names (sequences of one-character strings)
     Invalid,     \* sequence of templates without a file name (texts)
     TsChars, CounterChars, IdChars,     \* the generated parts of a file name
-    MaxFilesSet, PreSet, MaxSizeSet, MaxBatches, EvBytes,
+    MaxFilesSet, PreSet, MaxSizeSet, MaxBatches, EvBytes, BadSet,
     Emit
 
 VARIABLES mode,      \* "pick" | "tpl" | "inv" | "scn"
@@ -94,7 +94,7 @@ TplCases == {[d |-> d, n |-> n, slash |-> s] : d \in 0..Len(Dirs), n \in 1..Len(
 -----------------------------------------------------------------------------
 (* counters *)
 Zero == [file_create |-> 0, file_create_failed |-> 0, file_write_failed |-> 0, file_delete |-> 0, file_delete_failed |-> 0,
-         file_set_read_failed |-> 0, batch_ok |-> 0, batch_failed |-> 0, batch_retry |-> 0]
+         file_set_read_failed |-> 0, event_format_failed |-> 0, batch_ok |-> 0, batch_failed |-> 0, batch_retry |-> 0]
 Faults == {"mkdir", "list", "create", "write", "delete", "sync"}
 NoFile == [some |-> FALSE, p |-> 0, size |-> 0]
 
@@ -156,10 +156,11 @@ PickScn(c) ==
     /\ UNCHANGED <<active, ctr, nfresh, pending, faultUsed, lastp, hist>>
 
 \* one invocation: a fresh batch of n events at period p (nothing waits to be retried), or the retry of the pending one
-Invoke(n, p, f, fresh) ==
+\* `bad` events of a fresh batch fail to format: they are counted and never reach the worker
+Invoke(n, p, f, fresh, bad) ==
     /\ mode = "scn"
     /\ f = "none" \/ ~faultUsed
-    /\ LET r == OnBatch(members, active, ctr, n * EvBytes, p, f, case.maxFiles, case.maxSize)
+    /\ LET r == OnBatch(members, active, [ctr EXCEPT !.event_format_failed = @ + bad], n * EvBytes, p, f, case.maxFiles, case.maxSize)
            c2 == IF r.outcome = "ok" THEN [r.ctr EXCEPT !.batch_ok = @ + 1]
                  ELSE IF r.outcome = "retry" THEN [r.ctr EXCEPT !.batch_failed = @ + 1, !.batch_retry = @ + 1]
                  ELSE [r.ctr EXCEPT !.batch_failed = @ + 1]
@@ -168,25 +169,25 @@ Invoke(n, p, f, fresh) ==
           /\ pending' = IF r.outcome = "retry" THEN <<[n |-> n, p |-> p]>> ELSE <<>>
           /\ faultUsed' = (faultUsed \/ f # "none")
           /\ lastp' = p
-          /\ hist' = Append(hist, [n |-> n, p |-> p, fault |-> f, fresh |-> fresh, outcome |-> r.outcome,
+          /\ hist' = Append(hist, [n |-> n, bad |-> bad, p |-> p, fault |-> f, fresh |-> fresh, outcome |-> r.outcome,
                                    ctr |-> c2, members |-> Cardinality(r.members)])
     /\ UNCHANGED <<mode, case>>
 
-Fresh(n, dp, f) ==
+Fresh(n, dp, f, bad) ==
     /\ pending = <<>> /\ nfresh < MaxBatches
-    /\ nfresh = 0 => n = 1                         \* the first batch is one event (see the harness: it cannot be made to pile up)
+    /\ nfresh = 0 => (n = 1 /\ bad = 0)           \* the first batch is one event (see the harness: it cannot be made to pile up)
     /\ nfresh' = nfresh + 1
-    /\ Invoke(n, lastp + dp, f, TRUE)
+    /\ Invoke(n, lastp + dp, f, TRUE, bad)
 Retry(f) ==
     /\ pending # <<>>
     /\ UNCHANGED nfresh
-    /\ Invoke(pending[1].n, pending[1].p, f, FALSE)
+    /\ Invoke(pending[1].n, pending[1].p, f, FALSE, 0)
 
 Next ==
     \/ \E c \in TplCases : PickTpl(c)
     \/ \E i \in 1..Len(Invalid) : PickInv(i)
     \/ \E c \in ScnCases : PickScn(c)
-    \/ \E n \in {1, 2}, dp \in {0, 1}, f \in Faults \cup {"none"} : Fresh(n, dp, f)
+    \/ \E n \in {1, 2}, dp \in {0, 1}, f \in Faults \cup {"none"}, bad \in BadSet : Fresh(n, dp, f, bad)
     \/ \E f \in {"none"} : Retry(f)
 Spec == Init /\ [][Next]_vars
 
@@ -214,6 +215,8 @@ FailuresCounted == mode = "scn" =>
 \* retention: after a batch that went through, with no fault so far, at most max_files members (at least the one written)
 RetentionBound == mode = "scn" /\ hist # <<>> /\ ~faultUsed /\ hist[Len(hist)].outcome = "ok" =>
     Cardinality(members) <= (IF case.maxFiles = 0 THEN 1 ELSE case.maxFiles) \/ ctr.file_create = 0
+\* an event that cannot be formatted is counted and costs nothing else
+FormatFailures == mode = "scn" => ctr.event_format_failed = (LET F[i \in 0..Len(hist)] == IF i = 0 THEN 0 ELSE F[i - 1] + hist[i].bad IN F[Len(hist)])
 \* every invocation is accounted: ok + failed = invocations; a retry is scheduled for every retryable failure
 BatchesAccounted == mode = "scn" =>
     /\ ctr.batch_ok + ctr.batch_failed = Len(hist)
@@ -228,6 +231,6 @@ TplJson(c) ==
 EmitReplay ==
     Emit => CASE mode' = "tpl" /\ mode = "pick" -> PrintT(<<"REPLAY", ToJson(TplJson(case'))>>)
               [] mode' = "inv" /\ mode = "pick" -> PrintT(<<"REPLAY", ToJson([kind |-> "inv", template |-> Invalid[case'.i]])>>)
-              [] mode' = "scn" /\ mode = "scn" -> PrintT(<<"REPLAY", ToJson([kind |-> "scn", cfg |-> case', steps |-> hist'])>>)
+              [] mode' = "scn" /\ mode = "scn" /\ pending' = <<>> -> PrintT(<<"REPLAY", ToJson([kind |-> "scn", cfg |-> case', steps |-> hist'])>>)
               [] OTHER -> TRUE
 =============================================================================
